@@ -271,6 +271,16 @@ func (fc *FuncCtx) selectionLV(n *ast.SelectorExpr, sel *types.Selection, st *St
 		ssh := e.shapeOf(curT)
 		f := e.findField(ssh, fv.Name())
 		if f == nil {
+			// a field of a struct that is modelled as one opaque value: an uninterpreted projection of that
+			// value (read-only), provided the field itself is a single-leaf value
+			fsh := e.shapeOf(fv.Type())
+			if ssh.Kind == KOpaque && len(e.leafSorts(fsh)) == 1 {
+				base := cur.load(st)
+				fn := e.declFun(smtSym("fld."+typeKey(curT)+"."+fv.Name()), []string{e.leafSorts(ssh)[0]}, e.leafSorts(fsh)[0])
+				cur = &rvalLV{scalar(fsh, app(fn, base.T()))}
+				curT = fv.Type()
+				continue
+			}
 			fc.unsupp(n, "field %s of %s is not materialised", fv.Name(), curT)
 		}
 		cur = &structFieldLV{fc, cur, fv.Name(), f.Sh}
